@@ -268,7 +268,7 @@ def build(which):
 
 
 RUBY_LISTS = [["rb1", "rt1"], ["rb1", "rp1", "rt1", "rp2"], ["rbc1", "rtc1"], ["rt1"], ["rt1", "rt2"], ["rp1", "rt1", "rp2"],
-              ["rp1", "rt2", "rp2"], ["rb1"], ["rt1", "rb1"]]
+              ["rp1", "rt2", "rp2"], ["rb1"], ["rt1", "rb1"], ["rt1", "rp2"], ["p2", "rp2"], ["span1", "rp2"]]
 GENERIC_LISTS = [[], ["span3", "br1"], ["text1"], ["p2"], ["span1"]]
 
 
@@ -578,7 +578,9 @@ _CAT_NAMES = [c for c, _ in CATS]
 _CAT_W = [w for _, w in CATS]
 RUBY_TEMPLATES = {
   "Ruby": [["Rb", "Rt"], ["Rb", "Rp", "Rt", "Rp"], ["Rbc", "Rtc"], ["Rbc", "Rtc", "Rtc"], ["Rb"], ["Rt", "Rb"], ["Rb", "Rp"]],
-  "Rtc": [["Rt"], ["Rt", "Rt"], ["Rp", "Rt", "Rp"], ["Rp", "Rt", "Rt", "Rp"], ["Rp", "Rt"], ["Rp"]],
+  "Rtc": [["Rt"], ["Rt", "Rt"], ["Rp", "Rt", "Rp"], ["Rp", "Rt", "Rt", "Rp"], ["Rp", "Rt"], ["Rp"],
+          # completions of a container that already holds a delimiter (the pattern is judged on old + new children together)
+          ["Rt", "Rp"], ["Rp"], ["P", "Rp"], ["Span", "Rp"], ["Rt", "Span", "Rp"], ["Rp", "Rp"]],
   "Rbc": [["Rb"], ["Rb", "Rb"]],
 }
 
